@@ -55,11 +55,12 @@ Section RemoveSeq.
     (* the elements of the sequence: children of p at their positions *)
     assert (Hpos : forall j k, nth_error l j = Some k ->
               In (k, f, Some j) (skids_wf s p) /\ attached s k /\ parent s k = Some p /\
-              c_pf (cellD s k) = Some f /\ c_pi (cellD s k) = Some j /\ k < p).
+              c_pf (cellD s k) = Some f /\ c_pi (cellD s k) = Some j /\ (k <> p /\ live s k)).
     { intros j k Hj. assert (Hin : In (k, f, Some j) (skids_wf s p)).
       { unfold skids_wf, kids_wf. eapply assoc_flat_incl; [exact Hassoc|]. apply fkids_seq_in. exact Hj. }
       destruct (Hcp k f (Some j) Hin) as [A [B [C Dd]]]. repeat split; try assumption.
-      apply HK. eapply edge_kid; exact Hin. }
+      - eapply reach_kid_ne; [exact HK | eapply edge_kid; exact Hin | apply reach_refl].
+      - eapply rank_kid_live; [exact HK | eapply edge_kid; exact Hin]. }
     assert (Hinj : forall j1 j2 k, nth_error l j1 = Some k -> nth_error l j2 = Some k -> j1 = j2).
     { intros j1 j2 k H1 H2. destruct (Hpos _ _ H1) as [_ [_ [_ [_ [P1 _]]]]]. destruct (Hpos _ _ H2) as [_ [_ [_ [_ [P2 _]]]]].
       congruence. }
@@ -101,13 +102,13 @@ Section RemoveSeq.
         destruct (HL d Hld Hdat) as [Hcd _ _ _]. destruct (Hcd k f' i' Hkd) as [_ [Hpk' _]].
         apply in_skids in Hk. destruct Hk as [f0 [i0 Hk]]. destruct (Hcp k f0 i0 Hk) as [_ [Hpk _]].
         rewrite Hpk in Hpk'. inversion Hpk'; subst d.
-        assert (Hle := D_below s D a HK LA' p Hd).
-        assert (Hap : a < p) by (apply HK; eapply edge_kid; exact Hedge). lia. }
+        apply (D_not_above s D a p HK LA'); [|exact Hd].
+        apply (proj2 HK). eapply edge_kid; exact Hedge. }
       assert (Hp2 : cellD s2 p = cellD s p).
       { apply (dr_same _ _ _ _ R).
-        assert (Hap : a < p) by (apply HK; eapply edge_kid; exact Hedge).
-        intros [Eq|Hc]; [lia|]. destruct (LC' p Hc) as [d [Hd Hkd]]. apply HK in Hkd.
-        assert (Hle := D_below s D a HK LA' d Hd). lia. }
+        assert (Hap : ~ reach s a p) by (apply (proj2 HK); eapply edge_kid; exact Hedge).
+        intros [Eq|Hc]; [subst p; apply Hap; apply reach_refl|].
+        apply (C_not_above s D a p HK LA' Hap). apply LC'. exact Hc. }
       rewrite Hp2, Hassoc in E. cbv beta iota zeta in E.
       set (FS' := set_key f (FSeq (firstn ix l ++ skipn (S ix) l)) (c_fs (cellD s p))) in *.
       set (s1' := upd s2 p (with_fs FS')) in *. fold cs in E.
@@ -120,13 +121,13 @@ Section RemoveSeq.
       assert (Hp1 : cellD s1' p = with_fs FS' (cellD s p)).
       { unfold s1'. rewrite cellD_upd, Nat.eqb_refl. unfold live in Hlp. rewrite Hlen2.
         apply Nat.ltb_lt in Hlp. rewrite Hlp. simpl. rewrite Hp2. reflexivity. }
-      assert (Hcs_lt : forall c, In c cs -> c < p /\ c <> a /\ In c (skids s p)).
+      assert (Hcs_lt : forall c, In c cs -> (c <> p /\ live s c) /\ c <> a /\ In c (skids s p)).
       { intros c Hc. apply Hcs in Hc. destruct Hc as [j [Hj Hn]]. destruct (Hpos _ _ Hn) as [Hin [_ [_ [_ [_ Hlt]]]]].
         split; [exact Hlt|]. split; [|eapply edge_kid; exact Hin].
         intros ->. assert (j = ix) by (eapply Hinj; eassumption). lia. }
       destruct (shift_spec p f cs s1' s3 u Hcs_nodup) as [PF13 [Hreg13 [Hsame13 Hsh13]]].
-      { intros c Hc. destruct (Hcs_lt c Hc) as [Hlt _]. unfold live, s1' in *. rewrite heap_len_upd, Hlen2. lia. }
-      { intros Hc. destruct (Hcs_lt p Hc) as [Hlt _]. lia. }
+      { intros c Hc. destruct (Hcs_lt c Hc) as [[_ Hlt] _]. unfold live, s1' in *. rewrite heap_len_upd, Hlen2. exact Hlt. }
+      { intros Hc. destruct (Hcs_lt p Hc) as [[Hlt _] _]. apply Hlt; reflexivity. }
       { exact Esh. }
       assert (Hidp : id_of s1' p = id_of s p) by (unfold id_of; rewrite Hp1; reflexivity).
       (* the shifted siblings *)
@@ -162,7 +163,7 @@ Section RemoveSeq.
         - apply Nat.ltb_lt in Elt.
           assert (Hnc : ~ In k cs).
           { intros Hc. apply Hcs in Hc. destruct Hc as [j2 [Hj2 Hn2]]. assert (j = j2) by (eapply Hinj; eassumption). lia. }
-          rewrite (Hunshift k Hnc) by lia.
+          rewrite (Hunshift k Hnc) by (apply Hlt).
           assert (Hka : k <> a) by (intros ->; assert (j = ix) by (eapply Hinj; eassumption); lia).
           rewrite (Hsib k (edge_kid _ _ _ _ _ Hin) Hka). exact Pj.
         - apply Nat.ltb_ge in Elt. rewrite (Hshift k j) by (try exact Hn; lia). reflexivity. }
@@ -191,7 +192,7 @@ Section RemoveSeq.
           split; [exact Hka|]. split; [eauto|].
           assert (Hnc : ~ In k cs).
           { intros Hc. apply Hcs in Hc. destruct Hc as [j2 [_ Hn2]]. destruct (Hpos _ _ Hn2) as [_ [_ [_ [Pf2 _]]]]. congruence. }
-          assert (Hkp : k <> p) by (assert (A := HK _ _ (edge_kid _ _ _ _ _ Hin)); lia).
+          assert (Hkp : k <> p) by (eapply reach_kid_ne; [exact HK | eapply edge_kid; exact Hin | apply reach_refl]).
           rewrite (Hunshift k Hnc Hkp), (Hsib k (edge_kid _ _ _ _ _ Hin) Hka). exact Pi.
         * inversion Ee; subst k0 f' i'. rewrite nth_error_remove in Hn.
           destruct (Nat.ltb j ix) eqn:Elt.
@@ -218,7 +219,7 @@ Section RemoveSeq.
         * apply pystr_eqb_neq in Ef. left. destruct (Hcp k f' i0 Hin) as [_ [_ [Pf Pi]]].
           assert (Hnc : ~ In k cs).
           { intros Hc. apply Hcs in Hc. destruct Hc as [j2 [_ Hn2]]. destruct (Hpos _ _ Hn2) as [_ [_ [_ [Pf2 _]]]]. congruence. }
-          assert (Hkp : k <> p) by (assert (A := HK _ _ (edge_kid _ _ _ _ _ Hin)); lia).
+          assert (Hkp : k <> p) by (eapply reach_kid_ne; [exact HK | eapply edge_kid; exact Hin | apply reach_refl]).
           rewrite (Hunshift k Hnc Hkp), (Hsib k (edge_kid _ _ _ _ _ Hin) Hka), Pi. split; [exact Hin | exact Ef].
       + destruct (reset_cid H ct (fuel_of s3) s3 p) as [s4 u4|s4 e4|] eqn:Er; simpl in E; [|inversion E|inversion E].
         assert (Es : s4 = s') by (inversion E; reflexivity). rewrite <- Es.
